@@ -314,7 +314,7 @@ func (x *runner) runSess(c sessCase) {
 		ra[k].bTo, ra[k].bFrom = estTo, estFrom
 	}
 	for k := 0; k < n && k < roundsRun; k++ {
-		ra[k].bTo, ra[k].bFrom, ra[k].emptyBefore = estTo, estFrom, emptyTo
+		ra[k].bTo, ra[k].bFrom = estTo, estFrom
 		if !accepted(k) {
 			break
 		}
@@ -370,7 +370,7 @@ func (x *runner) runSess(c sessCase) {
 	if s != nil && err == nil && !drift {
 		if !c.Recv && emptyTo && s.LocalAddr().Equal(jid.JID{}) && !estTo.Equal(jid.JID{}) && s.RemoteAddr().Equal(estFrom) {
 			// (negotiator.go tolerates the zero "to" that JID.UnmarshalXMLAttr makes
-			// of an empty attribute, and LocalAddr is that Info field)
+			// of an empty attribute; it used to leave it in the Info LocalAddr reads)
 			x.res.Fail("C12/restart/init/empty-to-clears-local-address", fmt.Sprintf("after a header with to='' was accepted the session reports the local address %q, established was %q", s.LocalAddr(), estTo), c)
 		} else if !s.LocalAddr().Equal(estTo) || !s.RemoteAddr().Equal(estFrom) {
 			x.res.Fail("C12/restart/"+role+"/reported-address", fmt.Sprintf("session reports local=%q remote=%q, established were %q and %q", s.LocalAddr(), s.RemoteAddr(), estTo, estFrom), c)
@@ -415,7 +415,7 @@ func (x *runner) runSess(c sessCase) {
 		if got, _ := attrOf(t, "", "to"); got != wantTo.String() {
 			bad("to", fmt.Sprintf("to=%q, the peer's address is %q", got, wantTo))
 		}
-		if got, _ := attrOf(t, "", "from"); got != wantFrom.String() && !(!c.Recv && ra[k].emptyBefore) {
+		if got, _ := attrOf(t, "", "from"); got != wantFrom.String() {
 			bad("from", fmt.Sprintf("from=%q, our address is %q", got, wantFrom))
 		}
 		if got, _ := attrOf(t, "", "version"); got != "1.0" {
